@@ -278,6 +278,11 @@ class VSvcDeco(_SvcMixin, PoolDecorator):
 
 
 @service(flavour=asyncio)
+class VSvcAgain(VSvcDeco):
+    """A subclass of a service class that is declared a service once more (same flavour)."""
+
+
+@service(flavour=asyncio)
 class VSvcWaiter(_SvcMixin, PoolDecorator):
     """An asyncio service that runs "until cancelled" by waiting on a future only its own frame references."""
 
@@ -317,6 +322,6 @@ class VSvcThread(_SvcMixin, PoolDecorator):
 
 
 # every recording class is also reachable through a namespace class and an alternative constructor
-for _cls in (VCtrl, VDeco, VDeco2, VDecoFalsy, VPool, VPoolEmpty, VSvcPool, VSvcEmpty, VSvcCtrl, VSvcTrioDeco, VSvcDeco, VSvcWaiter, VSvcThread):
+for _cls in (VCtrl, VDeco, VDeco2, VDecoFalsy, VPool, VPoolEmpty, VSvcPool, VSvcEmpty, VSvcCtrl, VSvcTrioDeco, VSvcDeco, VSvcAgain, VSvcWaiter, VSvcThread):
     setattr(Site, _cls.__name__, _cls)
     _cls.build = classmethod(_build)
